@@ -55,6 +55,34 @@ either when a directory is gone whose Manifest the tree still refers to) the rou
 DONT_CARE provided they left equal Manifest contents, and the history ends there; when only
 one of them fails that is reported.
 
+Family 'opts' (the options of the updates as part of the history).  The statement compares "update
+--incremental" with "a full update"; both take the same options, and the options need not be those of the
+update that wrote the Manifest before.  Same replicas, same rounds, same comparison as 'hist' (monotonic clock,
+scan start on the whole second, both layouts), but a round is a pair (tree operation, options) and the
+incremental update on A and the full update on B of that round are both run with those options:
+``--hashes`` from a menu {SHA1, SHA256, "SHA1 SHA256"} (thorough: also "SHA256 SHA512"), which relative to the
+hash set of the previous update of the history (create: SHA1) is the same set, a superset, a subset, a disjoint
+or an overlapping one; and one of {nothing else, ``--profile ebuild`` (entries sorted, sub-Manifests of 128
+bytes and more compressed), ``--compress-watermark 0`` (every sub-Manifest that gets written is compressed),
+``--compress-watermark 1000000`` (... uncompressed), ``--force-rewrite``}.  Tree operations: none at all; per
+existing slot file touch (mtime T+1), same-size modification (T+1), other-size modification (T-1), deletion;
+an absent slot file is added (T+1); nested layout: a DIST line is appended to the uncompressed sub-Manifest
+(T+1); flat layout: a valid Manifest listing the slot directory's files with SHA1 (the hash set of create, so
+that its entries and the ones the top-level Manifest already has for the same files can carry different hash
+sets) appears in the slot directory (T+1).  The mtime classes are the ones for which the premise holds, so every
+round is MUST (the premise is nevertheless read off the tree snapshots as in 'dirs').  The tree of this family
+has one more directory holding nothing but a Manifest with one DIST line: a sub-Manifest that no update has a
+reason to change and whose MANIFEST entry still has to follow the requested hash set (create registers and
+rewrites it, so it is dated after the first TIMESTAMP and looked at by every first round; from the second round
+on it is older than the TIMESTAMP - guarded by a counter).  Quick: two-round
+histories in UTC of which at most one round carries a tree operation, one-round histories in the other zones;
+thorough: all two-round histories in the three zones with the wider hash menu, plus three-round histories in UTC
+with at most one tree operation (see OPTS_PLAN).  Oracle unchanged: same Manifest files (by name, compressed or
+not) with the same entries - tag, path, size, hash names and digests - as the full update with the same options
+on the same tree left; MANIFEST entries of A match the bytes of the file they name under every hash they carry
+and carry the same hash names as B's; A verifies.  Nothing is demanded of the full update itself (which hashes
+it records, whether it compresses): that is observed and only used for the vacuity guards.
+
 Family 'inflight' (the *schedule* quantifier).  While an update (incremental or full) is
 running, right after the k-th call of ``update_entry_for_path`` on a regular file has returned
 (k = 0: right after the start time has been taken), file j is rewritten (same size /
@@ -72,8 +100,8 @@ a running full update recorded it.
 Oracle (three-valued).  MUST: after a round in which every content-modified file has a
 changed size or an mtime strictly later than the previous TIMESTAMP, the reference-parsed
 entries of *all* Manifest files of A and B are equal (TIMESTAMP lines excluded), every
-MANIFEST entry of A matches size and SHA1 of the sub-Manifest file it names (reference
-hash), and A verifies.  ALWAYS: a TIMESTAMP found after an update that wrote the top-level
+MANIFEST entry of A matches size and every digest it carries of the sub-Manifest file it
+names (reference hashes), and A verifies.  ALWAYS: a TIMESTAMP found after an update that wrote the top-level
 Manifest is not later than the fake clock value at which the scan started (an update that
 finds nothing to record does not write and keeps the old TIMESTAMP, even a future one -
 that TIMESTAMP was not "written by" it); B verifies (harness sanity).  DONT_CARE: same-size
@@ -131,6 +159,17 @@ RULE = ('hist: {UTC, XXX-3, XXX5} x {flat, nested layout} x {(clock mono, scan s
         'file) | inside a present package directory: {modify_same_size, modify_other_size, add a file} x mtime class, '
         'delete a file; updates, clock and comparison as in hist; verdict from the premise evaluated on tree '
         'snapshots before/after the edit; non-trivial = judged MUST. '
+        'opts: {flat, nested} x (clock mono, scan start on the second) x every history of R rounds, a round = one '
+        'applicable tree operation {none | touch (T+1), modify_same_size (T+1), modify_other_size (T-1), delete x '
+        'existing slot | add (T+1) x absent slot | nested: append DIST line to the uncompressed sub-Manifest (T+1) | '
+        'flat: valid SHA1 Manifest for the slot directory appears in it (T+1)} x options of both updates of the '
+        'round {--hashes in H} x {none, --profile ebuild, --compress-watermark 0, --compress-watermark 1000000, '
+        '--force-rewrite}; quick: R=2 in UTC restricted to histories with at most one round whose tree operation '
+        'is not "none", R=1 in XXX-3 and XXX5, H = {SHA1, SHA256, SHA1 SHA256}; thorough: R=2 unrestricted in all '
+        'three zones with H extended by "SHA256 SHA512", plus R=3 in UTC with at most one tree operation and the '
+        'quick H; create with -H SHA1; the tree has an additional directory holding only a Manifest with one DIST '
+        'line; verdict from the premise on tree snapshots (always MUST by construction); comparison as in hist, '
+        'hash names of MANIFEST entries included. '
         'inflight: the hist configurations with the monotonic clock x running update {incremental, full} x {no other '
         'pending change, another file changed beforehand} x file slot j x k in 0..K (K = number of '
         'update_entry_for_path calls on regular files that returned during a dry run of the same update without an '
@@ -161,13 +200,29 @@ ASSUMPTIONS = [
     'the two would surface as a violation that does not reproduce on stand-alone replay',
     'entries are compared per Manifest file as multisets (line order is not demanded); the size/digest of a '
     'MANIFEST entry for a sub-Manifest that is itself compared is not compared between A and B (line order may '
-    'differ) but against the reference SHA1 / size of the file it names in the same replica: stale in A and current '
+    'differ) but against the reference digests / size of the file it names in the same replica (its hash names are '
+    'compared between A and B): stale in A and current '
     'in B counts as a difference; `gemato verify` on replica A checks it once more',
     'after a DONT_CARE round or a violation replica A is re-synchronised with one full update at the same fake '
     'instant and the history continues (the explored space does not depend on the verdicts)',
-    'operations with mtime classes only for files that exist / slots that are absent; only the default profile, '
-    'SHA1, no signing; TIMESTAMP refresh without -t; family hist never removes a directory and has no compressed '
-    'Manifest',
+    'operations with mtime classes only for files that exist / slots that are absent; outside family opts only '
+    'the default profile and -H SHA1; no signing; TIMESTAMP refresh without -t; family hist never removes a '
+    'directory and has no compressed Manifest',
+    'family opts: both updates of a round get the same options (an incremental and a full update with different '
+    'options are not comparable); options are one --hashes value plus at most one of --profile ebuild / '
+    '--compress-watermark 0 / --compress-watermark 1000000 / --force-rewrite; --compress-format other than the '
+    'default gz, --profile old-ebuild, combinations of the non-hash options, signing options and partial-tree '
+    'updates (a path below the top, which --incremental refuses) are not explored; the tree has no file that the '
+    'ebuild profile treats specially (no metadata.xml, *.ebuild, files/), so that profile shows as sorted entries '
+    'and the 128-byte compression watermark only',
+    'family opts: one mtime class per tree operation (the one shown in RULE; the classes are explored with the '
+    'default options in hist); a re-synchronising full update after a differing round uses the round\'s options; '
+    'compressed Manifests that an update wrote are compared after decompression (gzip headers carry the wall '
+    'clock), the MANIFEST entry for them against the compressed bytes on disk of the same replica; the DIST-line '
+    'edit of the sub-Manifest is only offered while that file is uncompressed',
+    'the violation signature of family opts keeps the tree operation, mtime class and non-hash options only for '
+    'rounds whose hash set equals the previous one; with a changed hash set it is (relation of the requested hash '
+    'set to the previous one, tree operation none / some, time zone)',
     'family dirs: Manifest files that arrive with a directory or appear in one are written by the reference '
     'writer (gverif.refmanifest), valid for the files they cover (DATA, size, SHA1 - the hash set of the updates), '
     'compressed with gzip (mtime field 0) / bz2 / lzma / xz by the harness; Manifest files of all replicas are '
@@ -218,6 +273,25 @@ CONTENTS = ('full', 'empty')     # mani_appear: entries for every file below the
 DIR_MC_OPS = ('dir_add', 'dir_replace', 'mani_appear', 'pkg_modify_same_size', 'pkg_modify_other_size', 'pkg_add')
 DIR_PLAIN_OPS = ('dir_remove', 'pkg_delete')
 DIR_OPS = DIR_MC_OPS + DIR_PLAIN_OPS
+
+# family 'opts': the options of a round's pair of updates are part of the history alphabet
+OPT_HASHES = {'base': ('SHA1', 'SHA256', 'SHA1 SHA256'),                  # value of --hashes
+              'wide': ('SHA1', 'SHA256', 'SHA1 SHA256', 'SHA256 SHA512')}
+OPT_EXTRAS = {'plain': (),                               # nothing besides --hashes (default profile)
+              'ebuild': ('--profile', 'ebuild'),         # sorted entries, compress watermark 128, gz
+              'c0': ('--compress-watermark', '0'),       # every sub-Manifest that is written gets compressed
+              'cbig': ('--compress-watermark', '1000000'),   # ... gets uncompressed
+              'force': ('--force-rewrite',)}
+# tier -> [(time zone, rounds per history, most rounds of a history that may carry a tree operation (None: any
+# number), hash menu)]
+OPTS_PLAN = {'quick': [('utc', 2, 1, 'base'), ('east', 1, None, 'base'), ('west', 1, None, 'base')],
+             'thorough': [('utc', 2, None, 'wide'), ('east', 2, None, 'wide'), ('west', 2, None, 'wide'),
+                          ('utc', 3, 1, 'base')]}
+OPT_SLOT_OPS = (('touch', 'newer'), ('modify_same_size', 'newer'), ('modify_other_size', 'older'), ('delete', None))
+OPT_MANI_APPEAR = ('mani_appear', 'slotdir:full:mani', 'newer')
+OPT_TREE_OPS = ('none', 'touch', 'modify_same_size', 'modify_other_size', 'delete', 'add', 'mani_append_dist',
+                'mani_appear')
+HASH_RELATIONS = ('same', 'superset', 'subset', 'disjoint', 'overlap')
 
 _FILES = ['a', 'b c', 'ü', 'q.x', 'ab']
 _DIRS = ['d', 'e f', 'dé', 'sub']
@@ -350,6 +424,38 @@ def initial_content(slot, seed):
     return c * (4 + 2 * slot)
 
 
+def dist_dir(seed):
+    """Family 'opts': a second directory that holds nothing but a Manifest with one DIST line - a sub-Manifest
+    that no update has a reason to change, whose MANIFEST entry in the top-level Manifest nevertheless has to
+    follow the requested hash set."""
+    return rot(_DIRS, seed)[1]
+
+
+def opt_split(opt):
+    """'<value of --hashes>/<name in OPT_EXTRAS>' -> (hashes, extra); None: what create used."""
+    if opt is None:
+        return HASH, 'plain'
+    hashes, extra = opt.rsplit('/', 1)
+    return hashes, extra
+
+
+def opt_argv(opt):
+    hashes, extra = opt_split(opt)
+    return list(OPT_EXTRAS[extra]) + ['-H', hashes]
+
+
+def hash_relation(prev, new):
+    """How the requested hash set relates to the one of the previous update of the same history."""
+    a, b = set(prev.split()), set(new.split())
+    if a == b:
+        return 'same'
+    if b > a:
+        return 'superset'
+    if b < a:
+        return 'subset'
+    return 'overlap' if a & b else 'disjoint'
+
+
 def pkg_dir(cfg, loc):
     """Relative path of the package directory at location loc."""
     name = rot(_PKGS, cfg['seed'])[0]
@@ -429,6 +535,9 @@ def build_tree(d, cfg, n_existing):
         write_file(os.path.join(d, sp[s]), initial_content(s, cfg['seed']), OLD * 10 ** 9)
     if cfg['layout'] == 'nested':
         write_file(os.path.join(d, slot_dir(cfg['seed']), 'Manifest'), b'', OLD * 10 ** 9)
+    if cfg.get('alpha', 'files') == 'opts':
+        os.makedirs(os.path.join(d, dist_dir(cfg['seed'])))
+        write_file(os.path.join(d, dist_dir(cfg['seed']), 'Manifest'), DIST_LINE, OLD * 10 ** 9)
 
 
 def restore(d, snap):
@@ -469,7 +578,7 @@ _PARSED = {}
 def parsed(manis):
     """-> ({manifest path: sorted entries without TIMESTAMP}, TIMESTAMP epoch seconds,
     {manifest path: entries in file order}, [sub-Manifest paths whose MANIFEST entry does not match
-    size / SHA1 of the file]); memoised on the bytes (results are not mutated)"""
+    size / digests of the file]); memoised on the bytes (results are not mutated)"""
     key = tuple(sorted(manis.items()))
     r = _PARSED.get(key)
     if r is None:
@@ -497,9 +606,12 @@ def _parse_manifests(manis):
                 continue
             if e[0] == 'MANIFEST' and os.path.normpath(os.path.join(os.path.dirname(p), e[1])) in manis:
                 sub = os.path.normpath(os.path.join(os.path.dirname(p), e[1]))
-                if e[2] != len(manis[sub]) or dict(e[3]).get(HASH, '').lower() != rm.hexdigest(HASH, manis[sub]):
+                # every digest the entry carries against the reference digest of the bytes on disk; what is kept
+                # for the comparison between the replicas is the *set of hash names*
+                if e[2] != len(manis[sub]) or not e[3] or any(
+                        not rm.available(h) or v.lower() != rm.hexdigest(h, manis[sub]) for h, v in e[3]):
                     stale.append(sub)
-                e = ('MANIFEST', e[1], None, ())
+                e = ('MANIFEST', e[1], None, tuple(h for h, _v in e[3]))
             body.append(e)
         raw[p] = body
         out[p] = sorted(body, key=repr)
@@ -604,7 +716,8 @@ class Run:
         self.last = None          # facts about the most recent successful update()
         # history state (saved / restored with the replica snapshots): model TIMESTAMP, whether it differs
         # from the Manifest's, the future TIMESTAMP that a stepped-back round replaced (None: none yet)
-        self.h = {'ts_model': None, 'diverged': False, 'stale': None}
+        # and (family 'opts') the value of --hashes of the previous update
+        self.h = {'ts_model': None, 'diverged': False, 'stale': None, 'hashes': HASH}
 
     def violation(self, sig, message):
         sig = dict(sig, tz=self.cfg['tz'])
@@ -619,7 +732,8 @@ class Run:
             return gem.cli(argv)
 
     def report_failed(self, mode, r, what):
-        argv = {'create': ['create', '-t'], 'incr': ['update', '--incremental'], 'full': ['update']}[mode]
+        argv = ({'create': ['create', '-t'], 'incr': ['update', '--incremental'], 'full': ['update']}[mode]
+                + (self.last or {}).get('opt_argv', []))
         self.violation({'check': 'update_failed', 'mode': mode, 'got': gem.brief(r), 'where': r.get('where')},
                        f'update_failed: {what}: `gemato {" ".join(argv)}` gave {gem.brief(r)} '
                        f'{r.get("msg") or r["log"][-1:]}')
@@ -629,10 +743,11 @@ class Run:
         r = self.cli(['verify', d])
         return r['kind'] == 'ret' and r['value'] == 0, r
 
-    def update(self, d, mode, start_us, what, tolerate=False):
+    def update(self, d, mode, start_us, what, tolerate=False, opt=None):
         """mode: 'create' | 'incr' | 'full'.  Runs the command with the scan starting at
         fake instant start_us; checks the TIMESTAMP; re-stamps rewritten Manifests.
         tolerate: a failing command is not reported here (the caller judges it).
+        opt: the options of the command (family 'opts', see opt_split); None: ``-H SHA1`` alone.
         -> (ok, observation)"""
         before = read_manifests(d)
         mt_before = {p: os.stat(os.path.join(d, p)).st_mtime_ns for p in before}
@@ -640,12 +755,12 @@ class Run:
         argv = {'create': ['create', '-t'], 'incr': ['update', '--incremental'], 'full': ['update']}[mode]
         CLOCK.us = start_us
         calls0 = CLOCK.calls
-        r = self.cli(argv + ['-H', HASH, d])
+        r = self.cli(argv + opt_argv(opt) + [d])
         self.stats.transitions += 1
         self.stats.outcomes[f'{mode}/{gem.brief(r)}'] += 1
         ok = r['kind'] == 'ret' and r['value'] == 0
         if not ok:
-            self.last = {'argv': argv}
+            self.last = {'argv': argv, 'opt_argv': opt_argv(opt) if opt is not None else []}
             if not tolerate:
                 self.report_failed(mode, r, what)
             return False, r
@@ -879,8 +994,11 @@ def describe_dir_op(cfg, choice):
 
 def apply_op(d, cfg, choice, ts_prev):
     """Apply one operation to replica directory d.  -> mtime ns given (or None)"""
-    op, slot, mc = choice
+    op, slot, mc = choice[:3]
+    choice = tuple(choice[:3])
     ns = None if mc is None else ts_prev * 10 ** 9 + MC_NS[mc]
+    if op == 'none':
+        return None
     if op in DIR_OPS:
         return apply_dir_op(d, cfg, choice, ns)
     if op in MANI_OPS:
@@ -925,10 +1043,49 @@ def apply_op(d, cfg, choice, ts_prev):
     return ns
 
 
+def opt_menu(cfg):
+    return [f'{h}/{x}' for h in OPT_HASHES[cfg['hashes']] for x in OPT_EXTRAS]
+
+
+def opt_tree_choices(existing, nonempty, layout, sub_plain, slotdir_bare):
+    """Tree operations of family 'opts': nothing at all; per existing slot file a touch, a same-size and an
+    other-size modification and its deletion; an absent slot file is added; nested layout: a DIST line is
+    appended to the (uncompressed) sub-Manifest; flat layout: a valid Manifest listing the slot directory's files
+    with the hash set of create appears in it.  One mtime class each, such that the premise holds."""
+    out = [('none', None, None)]
+    for s in range(3):
+        if s in existing:
+            for op, mc in OPT_SLOT_OPS:
+                if op == 'modify_same_size' and s not in nonempty:
+                    continue
+                out.append((op, s, mc))
+        else:
+            out.append(('add', s, 'newer'))
+    if layout == 'nested' and sub_plain:
+        out.append(('mani_append_dist', None, 'newer'))
+    if layout == 'flat' and slotdir_bare:
+        out.append(OPT_MANI_APPEAR)
+    return out
+
+
+def with_options(tree_choices, cfg):
+    return [t + (o,) for t in tree_choices for o in opt_menu(cfg)]
+
+
 def choices(d, cfg):
     """Applicable operations in the current state of replica directory d."""
     if cfg.get('alpha', 'files') == 'dirs':
         return dir_choices(dir_state(d, cfg), tuple(cfg['kinds']))
+    if cfg.get('alpha', 'files') == 'opts':
+        paths = [os.path.join(d, rel) for rel in slot_paths(cfg['seed'])]
+        existing = {s for s, p in enumerate(paths) if os.path.exists(p)}
+        sub_plain = False
+        if os.path.isfile(sub_manifest(d, cfg)):
+            with open(sub_manifest(d, cfg), 'rb') as f:
+                sub_plain = mani_applicable('mani_append_dist', f.read())
+        return with_options(opt_tree_choices(
+            existing, {s for s in existing if os.path.getsize(paths[s])}, cfg['layout'], sub_plain,
+            not manifest_names_in(os.path.join(d, slot_dir(cfg['seed'])))), cfg)
     out = []
     for s, rel in enumerate(slot_paths(cfg['seed'])):
         p = os.path.join(d, rel)
@@ -957,6 +1114,8 @@ def initial_choices(layout, alpha='files', kinds=()):
     sub-Manifest carries neither of the lines that the harness appends; no package directory)."""
     if alpha == 'dirs':
         return dir_choices(initial_dir_state(layout), tuple(kinds))
+    if alpha == 'opts':         # kinds: name of the hash menu
+        return with_options(opt_tree_choices({0, 1}, {0, 1}, layout, True, layout == 'flat'), {'hashes': kinds})
     out = []
     for s in (0, 1):
         for op in EXISTING_OPS:
@@ -993,17 +1152,55 @@ def sig_class(mc):
 
 # ------------------------------------------------------------------ family 'hist'
 
+def entry_hash_names(e):
+    """Hash names of a reference-parsed file entry (MANIFEST entries of compared sub-Manifests carry names only)."""
+    return frozenset(x if isinstance(x, str) else x[0] for x in e[3])
+
+
+def opts_observations(stats, e0, eb, req, rel, extra, cfg, la, lb):
+    """Family 'opts', not part of the verdict: what the *full* update made of the options, so that finish() can
+    tell whether the option dimension had any effect at all (a full update that kept the old hash set, never
+    compressed and never rewrote would make the comparison with the incremental one vacuous).
+    e0 / eb: parsed Manifests of a replica before the round / of B after it; la / lb: Run.last of the two updates."""
+    want = frozenset(req.split())
+    names = [entry_hash_names(e) for ents in eb.values() for e in ents if e[0] not in ('IGNORE', 'DIST')]
+    mnames = [entry_hash_names(e) for ents in eb.values() for e in ents if e[0] == 'MANIFEST']
+    if names:
+        stats.counters[f'opts/after_full_update:hash_set_{rel}:'
+                       + ('every_entry_carries_the_requested_hash_set' if all(n == want for n in names)
+                          else 'some_entry_carries_another_hash_set')] += 1
+    if mnames and rel != 'same' and all(n == want for n in mnames):
+        stats.counters['opts/after_full_update:MANIFEST_entries_follow_changed_hash_set'] += 1
+    sub0 = {p for p in e0 if p != 'Manifest'}
+    sub1 = {p for p in eb if p != 'Manifest'}
+    for p in sorted(sub1 - sub0):
+        if comp_of(p) and p[:-len(comp_of(p)) - 1] in sub0:
+            stats.counters[f'opts/full_update_compressed_a_sub_manifest:{extra}'] += 1
+    for p in sorted(sub0 - sub1):
+        if comp_of(p) and p[:-len(comp_of(p)) - 1] in sub1:
+            stats.counters[f'opts/full_update_uncompressed_a_sub_manifest:{extra}'] += 1
+    if any(comp_of(p) for p in sub1):
+        stats.counters[f'opts/round_ended_with_compressed_sub_manifest:{cfg["layout"]}'] += 1
+    if any(comp_of(p) for p in sub0):
+        stats.counters['opts/round_started_with_compressed_sub_manifest'] += 1
+    for mode, last in (('incr', la), ('full', lb)):
+        stats.counters[f'opts/{mode}:{extra}:' + ('top_manifest_written' if last['top_written']
+                                                   else 'top_manifest_not_written')] += 1
+
+
 def play_round(run, A, B, choice, rnd, history):
     """One round on both replicas.  -> False when the history cannot be continued."""
     cfg, stats = run.cfg, run.stats
-    op, slot, mc = choice
+    op, slot, mc = choice[:3]
+    opt = choice[3] if len(choice) > 3 else None         # family 'opts': the options of this round's two updates
     dirs = cfg.get('alpha', 'files') == 'dirs'
-    fam = 'dirs/' if dirs else ''            # prefix of the outcome classes and of the family's own counters
+    opts = cfg.get('alpha', 'files') == 'opts'
+    fam = 'dirs/' if dirs else 'opts/' if opts else ''   # prefix of the outcome classes and of the family's own counters
     run.rnd = rnd
     h = run.h
     start_s = round_start_s(cfg['clock'], rnd)
     start_us = start_s * 10 ** 6 + cfg['frac']
-    _e0, ts_actual, _raw0, stale0 = parsed(read_manifests(A))
+    e0, ts_actual, _raw0, stale0 = parsed(read_manifests(A))
     if stale0:
         stats.counters['round_started_with_stale_manifest_entry_in_A'] += 1
     ts_prev = h['ts_model']
@@ -1011,27 +1208,37 @@ def play_round(run, A, B, choice, rnd, history):
         if not h['diverged']:
             raise HarnessError(f'model TIMESTAMP {ts_prev} != TIMESTAMP in A {ts_actual} without a reported violation')
         stats.counters['round_relative_to_model_timestamp_after_timestamp_violation'] += 1
-    tree_before = snapshot(A) if dirs else None
+    tree_before = snapshot(A) if dirs or opts else None
     ns = apply_op(A, cfg, choice, ts_prev)
     apply_op(B, cfg, choice, ts_prev)
-    if dirs:
+    if dirs or opts:
         # the premise is read off the tree itself (what was modified / added, with which size and mtime)
         verdict, reason = premise(tree_before, snapshot(A), ts_prev)
-        pending = unregistered(read_manifests(A))
+        pending = unregistered(read_manifests(A)) if dirs else []
     else:
         verdict, reason = verdict_for(choice)
         pending = []
     what = (f'history {history} tz={cfg["tz"]} layout={cfg["layout"]} clock={cfg["clock"]} frac={cfg["frac"]}us '
             f'round {rnd}')
+    if opts:
+        req, extra = opt_split(opt)
+        rel = hash_relation(h['hashes'], req)
+        what += f' (both updates with `{" ".join(opt_argv(opt))}`; the previous update had -H {h["hashes"]!r})'
     stats.evaluations += 1
-    ok_a, ra = run.update(A, 'incr', start_us, what, tolerate=dirs)
+    ok_a, ra = run.update(A, 'incr', start_us, what, tolerate=dirs, opt=opt)
     la = run.last
-    ok_b, rb = run.update(B, 'full', start_us, what, tolerate=dirs)
+    ok_b, rb = run.update(B, 'full', start_us, what, tolerate=dirs, opt=opt)
     stats.counters[f'{fam}round:{op}:{mc}'] += 1
     if dirs:
         stats.counters[f'dirs/arg:{op}:{slot}'] += 1
         stats.counters[f'dirs/tz:{cfg["tz"]}'] += 1
         stats.counters[f'dirs/layout:{cfg["layout"]}'] += 1
+    elif opts:
+        stats.counters[f'opts/tz:{cfg["tz"]}'] += 1
+        stats.counters[f'opts/layout:{cfg["layout"]}'] += 1
+        stats.counters[f'opts/hashes:{req}'] += 1
+        stats.counters[f'opts/extra:{extra}'] += 1
+        stats.counters[f'opts/round{rnd}:hash_set_{rel}:{extra}'] += 1
     else:
         stats.counters[f'tz:{cfg["tz"]}'] += 1
         stats.counters[f'layout:{cfg["layout"]}'] += 1
@@ -1042,7 +1249,7 @@ def play_round(run, A, B, choice, rnd, history):
         if ok_a or ok_b:
             # one update fails where the other succeeds: whatever the premise, report the failing one
             run.report_failed('full' if ok_a else 'incr', rb if ok_a else ra,
-                              what + f' ({describe_dir_op(cfg, choice)}; the '
+                              what + f' ({describe_dir_op(cfg, choice[:3])}; the '
                               f'{"incremental" if ok_a else "full"} update on the same tree succeeded)')
             stats.outcomes[f'dirs/one_update_fails/{"full" if ok_a else "incr"}'] += 1
             return False
@@ -1089,12 +1296,33 @@ def play_round(run, A, B, choice, rnd, history):
                        + ('still_unregistered_after_full_update' if still else 'registered_by_full_update')] += 1
     if equal and rawa != rawb:
         stats.counters['equal_but_line_order_differs'] += 1
+    if opts:
+        opts_observations(stats, e0, eb, req, rel, extra, cfg, la, run.last)
+        # a sub-Manifest that nobody touched since before the previous TIMESTAMP and that the full update left
+        # byte-identical, whose MANIFEST entry the full update nevertheless gave other hash names
+        mb = read_manifests(B)
+        for mp, ents in eb.items():
+            for e in ents:
+                sub = os.path.normpath(os.path.join(os.path.dirname(mp), e[1]))
+                old = tree_before.get(sub)
+                if (e[0] == 'MANIFEST' and e[2] is None and old is not None and old[0] == 'f' and old[1] == mb.get(sub)
+                        and old[2] <= ts_prev * 10 ** 9 and e not in e0.get(mp, ())):
+                    stats.counters['opts/full_update_changed_hash_set_of_MANIFEST_entry_for_old_unchanged_sub_manifest'] += 1
     if verdict == 'must':
         stats.compared += 1
         stats.counters[fam + 'pre_true'] += 1
         sig = {'check': 'incremental_differs_from_full', 'op': op, 'mtime_class': sig_class(mc)}
-        if dirs:
-            target = describe_dir_op(cfg, choice)
+        if opts:
+            # classified by how the requested hash set relates to the previous one; the other options only where
+            # the hash set cannot be what makes the difference
+            sig.update(hash_set=rel, options=extra)
+            if rel != 'same':
+                sig.update(op='none' if op == 'none' else 'tree_op', mtime_class='*', options='*')
+            stats.counters[f'opts/must:{op}:hash_set_{rel}'] += 1
+        if op == 'none':
+            target = 'nothing changed in the tree'
+        elif op in DIR_OPS:
+            target = describe_dir_op(cfg, choice[:3])
         elif slot is None:
             target = f'{op} on the sub-Manifest {os.path.join(slot_dir(cfg["seed"]), "Manifest")!r}'
         else:
@@ -1129,22 +1357,24 @@ def play_round(run, A, B, choice, rnd, history):
         stats.outcomes[f'{fam}dontcare/{"equal" if equal else "differs"}/{op}:{mc}'] += 1
     if not equal:
         stats.counters['resync_full_update_on_A'] += 1
-        ok, _r = run.update(A, 'full', start_us, what + ' (re-sync)')
+        ok, _r = run.update(A, 'full', start_us, what + ' (re-sync)', opt=opt)
         if not ok:
             return False
         la = dict(run.last, stepback=la['stepback'], ts_before=la['ts_before'],
                   top_written=la['top_written'] or run.last['top_written'])
         ea2, _ts2, _raw2, stale2 = parsed(read_manifests(A))
         if ea2 != eb or (stale2 and not stale_b):
-            if not dirs:
+            if not (dirs or opts):
                 raise HarnessError(f'{what}: a full update on A does not give B\'s Manifests: {diff_paths(ea2, eb)} '
                                    f'{stale2}')
             # what the incremental update recorded (e.g. a Manifest file as plain data) is not undone by a full
             # update: continue from a copy of B with B's TIMESTAMP
-            stats.counters['dirs/resync_by_copy_of_B'] += 1
+            stats.counters[fam + 'resync_by_copy_of_B'] += 1
             tsb = parsed(read_manifests(B))[1]
             restore(A, snapshot(B))
             la = dict(la, ts_after=tsb, ts_model=tsb if la['ts_model'] == la['ts_after'] else la['ts_model'])
+    if opts:
+        h['hashes'] = req
     h['ts_model'] = la['ts_model']
     h['diverged'] = la['ts_model'] != la['ts_after']
     if la['stepback'] and la['top_written']:
@@ -1164,9 +1394,9 @@ def start_history(run, root):
         if not run.verify(d)[0]:
             raise HarnessError('created tree does not verify')
     ma, mb = read_manifests(A), read_manifests(B)
-    if ma != mb or (cfg['layout'] == 'nested') != (len(ma) == 2):
+    if ma != mb or len(ma) != 1 + (cfg['layout'] == 'nested') + (cfg.get('alpha', 'files') == 'opts'):
         raise HarnessError(f'replicas differ after create or layout not as intended: {sorted(ma)}')
-    run.h = {'ts_model': parsed(ma)[1], 'diverged': False, 'stale': None}
+    run.h = {'ts_model': parsed(ma)[1], 'diverged': False, 'stale': None, 'hashes': HASH}
     if run.h['ts_model'] != T0:
         raise HarnessError(f'TIMESTAMP after create is {run.h["ts_model"]}')
     return A, B
@@ -1177,10 +1407,18 @@ def hist_case(cfg, history):
             'seed': cfg['seed'], 'rounds': [list(c) for c in history]}
     if cfg.get('alpha', 'files') == 'dirs':
         case.update(family='dirs', alpha='dirs', kinds=list(cfg['kinds']))
+    if cfg.get('alpha', 'files') == 'opts':
+        case.update(family='opts', alpha='opts', hashes=cfg['hashes'])
     return case
 
 
-def explore_hist(cfg, first, depth_max, stats, scratch):
+def tree_ops_in(history):
+    return sum(1 for c in history if c[0] != 'none')
+
+
+def explore_hist(cfg, first, depth_max, stats, scratch, max_tree_ops=None):
+    """max_tree_ops (family 'opts'): histories in which more rounds than that carry a tree operation are left out
+    (None: no such bound)."""
     run = Run(cfg, stats, hoist_from_round=2)
     root = fresh_root(scratch)
     run.case = hist_case(cfg, [])
@@ -1196,9 +1434,12 @@ def explore_hist(cfg, first, depth_max, stats, scratch):
         rnd = len(history) + 1
         chs = choices(A, cfg)
         if rnd == 1:
-            if chs != initial_choices(cfg['layout'], cfg.get('alpha', 'files'), cfg.get('kinds', ())):
+            if chs != initial_choices(cfg['layout'], cfg.get('alpha', 'files'),
+                                      cfg.get('kinds', ()) or cfg.get('hashes')):
                 raise HarnessError('initial choices differ from the static list')
             chs = [chs[first]]
+        elif max_tree_ops is not None and tree_ops_in(history) >= max_tree_ops:
+            chs = [c for c in chs if c[0] == 'none']
         snap = (snapshot(A), snapshot(B), dict(run.h))
         for ch in chs:
             restore(A, snap[0])
@@ -1225,6 +1466,8 @@ def replay_hist(case, scratch):
            'clock': case.get('clock', 'mono')}
     if case.get('alpha', 'files') == 'dirs':
         cfg.update(alpha='dirs', kinds=tuple(case['kinds']))
+    if case.get('alpha', 'files') == 'opts':
+        cfg.update(alpha='opts', hashes=case['hashes'])
     run = Run(cfg, None)
     run.case = case
     with harness_env(cfg['tz']):
@@ -1391,7 +1634,7 @@ def replay_inflight(case, scratch):
 # ------------------------------------------------------------------ runner interface
 
 def replay(case, scratch):
-    if case['family'] in ('hist', 'dirs'):
+    if case['family'] in ('hist', 'dirs', 'opts'):
         return replay_hist(case, scratch)
     return replay_inflight(case, scratch)
 
@@ -1419,6 +1662,13 @@ def shards(tier, seed):
         for layout in LAYOUTS:
             for first in range(len(initial_choices(layout, 'dirs', KINDS[kset]))):
                 out.append(('dirs', tz, layout, 0, first, 'mono', kset, depth))
+    for tz, depth, max_ops, menu in OPTS_PLAN[tier]:
+        for layout in LAYOUTS:
+            ini = initial_choices(layout, 'opts', menu)
+            for first in range(len(ini)):
+                if max_ops == 0 and ini[first][0] != 'none':
+                    continue
+                out.append(('opts', tz, layout, 0, first, 'mono', depth, max_ops, menu))
     for tz in TZS:
         for layout in LAYOUTS:
             for frac in FRACS:
@@ -1428,6 +1678,12 @@ def shards(tier, seed):
     def cost(s):          # rough number of gemato runs; longest first keeps the workers busy
         if s[0] == 'inflight':
             return 1000
+        if s[0] == 'opts':
+            ini = initial_choices(s[2], 'opts', s[8])
+            n = len(ini)
+            if s[7] is not None and tree_ops_in([ini[s[4]]]) >= s[7]:
+                n = len(opt_menu({'hashes': s[8]}))       # only rounds without a tree operation follow
+            return 4 + 3 * sum(n ** k for k in range(s[6]))
         if s[0] == 'dirs':
             n = len(initial_choices(s[2], 'dirs', KINDS[s[6]]))
             return 4 * n if s[7] == 2 else 4 * n * n
@@ -1443,7 +1699,13 @@ def shards(tier, seed):
           initial_choices('flat', 'dirs', KINDS['base']).index(('dir_add', 'top:mani', 'newer')), 'mono', 'base',
           DIRS_PLAN[tier][0][2])
     out.remove(w2)
-    return [w, w2] + out
+    # and for family 'opts': the one-round history "nothing changes in the tree, the updates ask for another hash"
+    tz3, depth3, max3, menu3 = OPTS_PLAN[tier][0]
+    w3 = ('opts', tz3, 'flat', 0,
+          initial_choices('flat', 'opts', menu3).index(('none', None, None, OPT_HASHES[menu3][1] + '/plain')), 'mono',
+          depth3, max3, menu3)
+    out.remove(w3)
+    return [w, w2, w3] + out
 
 
 def run_shard(spec, tier, seed, scratch):
@@ -1457,6 +1719,9 @@ def run_shard(spec, tier, seed, scratch):
         elif fam == 'dirs':
             cfg.update(alpha='dirs', kinds=KINDS[spec[6]])
             explore_hist(cfg, spec[4], spec[7], stats, scratch)
+        elif fam == 'opts':
+            cfg.update(alpha='opts', hashes=spec[8])
+            explore_hist(cfg, spec[4], spec[6], stats, scratch, max_tree_ops=spec[7])
         else:
             explore_inflight(cfg, spec[4], stats, scratch)
     if time.localtime(T0).tm_gmtoff != off0 or gemato.cli.datetime is not _dt:
@@ -1508,6 +1773,61 @@ def finish_dirs(total, tier):
         errs.append('vacuity: dirs: no MUST round ended with equal Manifests')
     if len(labels) < 2:
         errs.append(f'vacuity: dirs: a single outcome class ({labels})')
+    return errs
+
+
+def finish_opts(total, tier):
+    """Vacuity guards of family 'opts'."""
+    errs = []
+    c = total.counters
+    plan = OPTS_PLAN[tier]
+    for op in OPT_TREE_OPS:
+        if not any(v for k, v in c.items() if k.startswith(f'opts/round:{op}:')):
+            errs.append(f'vacuity: opts: no round with tree operation {op}')
+    for h in sorted({h for _tz, _d, _m, menu in plan for h in OPT_HASHES[menu]}):
+        if not c.get(f'opts/hashes:{h}'):
+            errs.append(f'vacuity: opts: no round with --hashes {h!r}')
+    for x in OPT_EXTRAS:
+        if not c.get(f'opts/extra:{x}'):
+            errs.append(f'vacuity: opts: no round with the options {x!r}')
+    deep = any(d >= 2 for _tz, d, _m, _menu in plan)
+    rels = ['same', 'superset', 'disjoint'] + (['subset'] if deep else [])
+    if any(d >= 2 and menu == 'wide' for _tz, d, _m, menu in plan):
+        rels.append('overlap')
+    for rel in rels:
+        if not any(v for k, v in c.items() if k.startswith('opts/must:') and k.endswith(f':hash_set_{rel}')):
+            errs.append(f'vacuity: opts: no MUST round whose requested hash set is related to the previous one as {rel!r}')
+        # the full update must have followed the option, or comparing the incremental one with it shows nothing
+        if not c.get(f'opts/after_full_update:hash_set_{rel}:every_entry_carries_the_requested_hash_set'):
+            errs.append(f'vacuity: opts: after no full update with a hash set related to the previous one as {rel!r} '
+                        'did every entry carry the requested hash set')
+        for x in OPT_EXTRAS:
+            if not any(c.get(f'opts/round{r}:hash_set_{rel}:{x}') for r in (1, 2, 3)):
+                errs.append(f'vacuity: opts: no round with hash set relation {rel!r} and options {x!r}')
+    for op in OPT_TREE_OPS:
+        if not any(c.get(f'opts/must:{op}:hash_set_{rel}') for rel in HASH_RELATIONS if rel != 'same'):
+            errs.append(f'vacuity: opts: tree operation {op} never judged MUST in a round with a changed hash set')
+    want = ['opts/after_full_update:MANIFEST_entries_follow_changed_hash_set',
+            'opts/full_update_changed_hash_set_of_MANIFEST_entry_for_old_unchanged_sub_manifest',
+            'opts/full_update_compressed_a_sub_manifest:c0', 'opts/round_ended_with_compressed_sub_manifest:flat',
+            'opts/round_ended_with_compressed_sub_manifest:nested',
+            'opts/incr:force:top_manifest_written', 'opts/full:force:top_manifest_written',
+            'opts/incr:plain:top_manifest_not_written', 'opts/full:plain:top_manifest_not_written',
+            'opts/pre_true']
+    if deep:
+        want += ['opts/round_started_with_compressed_sub_manifest',
+                 'opts/full_update_uncompressed_a_sub_manifest:cbig']
+    for k in want:
+        if not c.get(k):
+            errs.append(f'vacuity: counter {k} is zero')
+    for tz in TZS:
+        if not c.get(f'opts/tz:{tz}'):
+            errs.append(f'vacuity: opts: time zone {tz} not exercised')
+    for layout in LAYOUTS:
+        if not c.get(f'opts/layout:{layout}'):
+            errs.append(f'vacuity: opts: layout {layout} not exercised')
+    if not total.outcomes.get('opts/must/equal'):
+        errs.append('vacuity: opts: no MUST round ended with equal Manifests')
     return errs
 
 
@@ -1579,6 +1899,7 @@ def finish(total, tier):
                 if not c.get(f'inflight_running_update_recorded:{layout}:full:j{j}:{seen}'):
                     errs.append(f'vacuity: no in-flight edit of file slot {j} injected {text} (layout {layout})')
     errs += finish_dirs(total, tier)
+    errs += finish_opts(total, tier)
     if c.get('clock_seam_mismatch'):
         errs.append(f'clock seam: {c["clock_seam_mismatch"]} updates left a TIMESTAMP that is neither the previous '
                     'one nor the fake scan start (real time leaked, or the TIMESTAMP is not the UTC scan start); '
